@@ -269,8 +269,11 @@ def run(ctx):
         if st in ('unknown', 'not_encodable', 'encoder_mismatch', 'reference_raises'):
             ctx.inconclusive.append({'why': st, 'item': res['item'], 'detail': res.get('detail')})
             continue
-        if (kind == 'raw' and st == 'differs' and flags & e1.mod_of(mode).FORCEWIN and res.get('ref') is not None
-                and res['ref'].count('\\/') > p.count('\\/') and 'decoded-backslash-before-slash-forcewin' in live):
+        if (st == 'differs' and mode == 'fn' and flags & e1.mod_of(mode).FORCEWIN and res.get('ref') is not None
+                and ('\\/' in res['ref'] or '\\/' in p) and 'decoded-backslash-before-slash-forcewin' in live):
+            # fnmatch mode + FORCEWIN: the scanner rewrites a recognised escaped slash to two escaped backslashes (= two separators,
+            # pinned by tests/test_fnmatch.py case121), so whether a backslash-slash pair is *seen* by the scanner (it is not when it
+            # results from decoding, or sits inside something shaped like a named escape) changes the language
             region_hits += 1
             continue
         rep = {'describe': f'C20 {kind} {st}: pattern {p!r} bytes={is_bytes} [{e1.flagnames(mode, flags)}] detail={res.get("detail")} name={res.get("name")!r}',
